@@ -573,12 +573,12 @@ def run : SwitchState → List Msg → Except Err (SwitchState × List (List Rep
 def stream (gs : List (List Reply)) : List Reply := gs.flatten
 
 /-- driver-only variant: `OFConnection.read` logs a handler exception and goes on with the next message -/
-def runTolerant : SwitchState → List Msg → List (Except Err (List Reply))
-  | _, [] => []
+def runTolerant : SwitchState → List Msg → SwitchState × List (Except Err (List Reply))
+  | s, [] => (s, [])
   | s, m :: ms =>
     match rxMessage s m with
-    | .error e => .error e :: runTolerant s ms
-    | .ok (s1, o) => .ok o :: runTolerant s1 ms
+    | .error e => let r := runTolerant s ms; (r.1, .error e :: r.2)
+    | .ok (s1, o) => let r := runTolerant s1 ms; (r.1, .ok o :: r.2)
 
 /-- what the decoder guarantees about a delivered message: a stats body of the generic class only for type codes without
 a dedicated request class, `unhandled` only for type codes of other classes -/
